@@ -177,3 +177,33 @@ def install_apply_recorder():
     _ss.apply_instructions = _rec_apply
     _app_installed = True
     return True
+
+
+# ---------------------------------------------------------------------------------------------------------
+# StepSimulation.update recorder (state handed in / state handed back), pass-through
+# ---------------------------------------------------------------------------------------------------------
+STEP_IO = []
+_step_installed = False
+
+
+def install_step_recorder():
+    global _step_installed
+    if _step_installed:
+        return True
+    try:
+        from nrel.hive.state.simulation_state.update.step_simulation import StepSimulation
+    except Exception:
+        return False
+    orig = getattr(StepSimulation, "update", None)
+    if orig is None:
+        return False
+
+    def _rec_update(self, simulation_state, env):
+        out = orig(self, simulation_state, env)
+        STEP_IO.append((simulation_state, out[0]))
+        return out
+
+    _rec_update._orig = orig
+    StepSimulation.update = _rec_update
+    _step_installed = True
+    return True
